@@ -336,24 +336,31 @@ def propagate_linear(c):
     c.ensures("linear", c.eq(pc.values, pa.values * s + pb.values))
 
 
-@contract("C17", "propagate_list", [CP + "propagate"], bounded="image shape (2,2); lists of 2 distances, optionally containing 0")
+@contract("C17", "propagate_list", [CP + "propagate"],
+          bounded="image shape (2,2); lists of 2-3 distances with a zero at the start, in the middle, at the end, or absent")
 def propagate_list(c):
-    """a list of distances gives, for each listed z, the single-distance result; a zero in the list gives the input"""
+    """a list of distances gives, for each listed z, the single-distance result (matched by its z label); a zero anywhere
+    in the list gives the input at z = 0"""
     d1 = c.real("d1", nonzero=True)
     d2 = c.real("d2", nonzero=True)
     c.requires(c.not_(c.eq(d1, d2)) if c.symbolic else d1 != d2)
     if not c.symbolic:
         c.requires(abs(d1) < 30 and abs(d2) < 30)
-    with_zero = c.choice("with_zero", [False, True])
+    where = c.choice("zero_position", ["none", "first", "middle", "last"])
     meta = dict(medium_index=1.33, illum_wavelen=0.66)
     a = _image(c, (2, 2), "a", **meta)
-    ds = [0, d1] if with_zero else [d1, d2]
+    ds = {"none": [d1, d2], "first": [0, d1], "middle": [d1, 0, d2], "last": [d1, 0]}[where]
     out = c.call(cp.propagate, a, ds)
-    c.ensures("z-labels", c.eq(out.z.values, np.array(ds, dtype=object if c.symbolic else float)))
+    c.ensures("number-of-slices", out.sizes['z'] == len(ds))
+    zs = list(out.z.values)
     for k, dk in enumerate(ds):
-        single = a if (with_zero and k == 0) else c.call(cp.propagate, a, dk)
-        c.ensures("slice-equals-single", c.eq(out.isel(z=k).transpose('x', 'y').values,
-                                                single.isel(z=0).transpose('x', 'y').values))
+        single = a if (not sym.is_sym(dk) and dk == 0) else c.call(cp.propagate, a, dk)
+        # the slice carrying the label dk
+        match = [i for i, z in enumerate(zs) if c.truth(c.eq(z, dk))]
+        c.ensures("label-present-once", len(match) == 1)
+        if len(match) == 1:
+            c.ensures("slice-equals-single", c.eq(out.isel(z=match[0]).transpose('x', 'y').values,
+                                                    single.isel(z=0).transpose('x', 'y').values))
 
 
 @contract("C17", "propagate_composition", [CP + "propagate"], bounded="image shape (2,2)", timeout_ms=60000)
